@@ -39,6 +39,20 @@ static void scn_write(int codec, obs_t* o) {
     if (r.status != CARQUET_OK) ERR(o, r.where); else o->hash = mc_hash(mem, mlen, 7) ^ (uint64_t)mlen;
     free(mem);
 }
+/* S2b: wide table (100 REQUIRED INT32 columns, 3 rows): the serialised footer passes 4 KiB and 8 KiB, so the Thrift output buffer grows while the
+ * footer is being written; the first column name is padded by `pad` characters so that each kind of append crosses the growth point */
+static void scn_write_wide(int pad, obs_t* o) {
+    carquet_error_t err = CARQUET_ERROR_INIT; carquet_schema_t* s = carquet_schema_create(&err); if (!s) { ERR(o, "schema_create"); return; }
+    char nm[64];
+    for (int i = 0; i < 100; i++) { int k = snprintf(nm, sizeof nm, "c%03d", i); if (i == 0) { memset(nm + k, 'p', (size_t)pad); nm[k + pad] = 0; } if (carquet_schema_add_column(s, nm, CARQUET_PHYSICAL_INT32, NULL, CARQUET_REPETITION_REQUIRED, 0) != CARQUET_OK) { ERR(o, "schema_add_column"); carquet_schema_free(s); return; } }
+    char* mem = NULL; size_t mlen = 0; FILE* f = open_memstream(&mem, &mlen); carquet_writer_options_t wo; carquet_writer_options_init(&wo); wo.compression = CARQUET_COMPRESSION_UNCOMPRESSED;
+    carquet_writer_t* w = carquet_writer_create_file(f, s, &wo, &err);
+    if (!w) { ERR(o, "writer_create_file"); fclose(f); free(mem); carquet_schema_free(s); return; }
+    int32_t v[3]; carquet_status_t st = CARQUET_OK;
+    for (int i = 0; i < 100 && st == CARQUET_OK; i++) { v[0] = i; v[1] = i * 7 + 1; v[2] = -i; st = carquet_writer_write_batch(w, i, v, 3, NULL, NULL); }
+    if (st != CARQUET_OK) { ERR(o, "write_batch"); carquet_writer_abort(w); } else { st = carquet_writer_close(w); if (st != CARQUET_OK) ERR(o, "close"); }
+    fclose(f); if (!o->err_seen) o->hash = mc_hash(mem, mlen, 7) ^ (uint64_t)mlen; free(mem); carquet_schema_free(s);
+}
 /* S3/S5: open + read every column */
 static void scn_read(int mode, int ncols, const int* ptypes, const int* tlens, obs_t* o) {
     carquet_error_t err = CARQUET_ERROR_INIT; carquet_reader_options_t ro; carquet_reader_options_init(&ro); ro.use_mmap = mode == 2;
@@ -88,13 +102,13 @@ static void scn_batch(int mode, obs_t* o) {
     o->hash = h; carquet_reader_close(rd);
 }
 
-enum { K_SCHEMA, K_WRITE, K_READ, K_BATCH, K_DICTREAD };
+enum { K_SCHEMA, K_WRITE, K_READ, K_BATCH, K_DICTREAD, K_WIDE };
 typedef struct { int kind, a, b; const char* name; } scn_t;
 static int g_dict_pt[2] = { PT_BYTE_ARRAY, PT_INT64 }, g_dict_tl[2] = { 0, 0 };
 static void run_scenario(const scn_t* s, obs_t* o) {
     memset(o, 0, sizeof *o); int pt[3], tl[3]; for (int c = 0; c < 3; c++) { pt[c] = g_hist.cols[c].ptype; tl[c] = g_hist.cols[c].tlen; }
     mcf_on();
-    switch (s->kind) { case K_SCHEMA: scn_schema(o); break; case K_WRITE: scn_write(s->a, o); break; case K_READ: scn_read(s->a, 3, pt, tl, o); break; case K_BATCH: scn_batch(s->a, o); break; default: scn_read(s->a, 2, g_dict_pt, g_dict_tl, o); break; }
+    switch (s->kind) { case K_SCHEMA: scn_schema(o); break; case K_WRITE: scn_write(s->a, o); break; case K_READ: scn_read(s->a, 3, pt, tl, o); break; case K_BATCH: scn_batch(s->a, o); break; case K_WIDE: scn_write_wide(s->a, o); break; default: scn_read(s->a, 2, g_dict_pt, g_dict_tl, o); break; }
     mcf_off();
 }
 static void prepare_input(const scn_t* s) {
@@ -118,15 +132,16 @@ static void judge(const scn_t* s, long k1, long k2, const obs_t* base, long base
 }
 
 static void enumerate(void) {
-    mc_rule("C19: scenarios = schema build (70 columns), write of a 3-row-group, 3-column nullable table per codec (5) and of a 9-row-group table, open + full column read per I/O mode (3) x codec (5), batch read per I/O mode x 2 codecs, dictionary-encoded file read per I/O mode x 2 codecs. "
+    mc_rule("C19: scenarios = schema build (70 columns), write of a 3-row-group, 3-column nullable table per codec (5) and of a 9-row-group table, write of a 100-column table whose footer grows the Thrift output buffer twice (16 name paddings so that every kind of append crosses the growth point), open + full column read per I/O mode (3) x codec (5), batch read per I/O mode x 2 codecs, dictionary-encoded file read per I/O mode x 2 codecs. "
             "K = allocation requests the library (and zlib/zstd on its behalf) makes in the fault-free run; every k in 1..K fails once (quick and thorough); all pairs k1<k2 for the scenarios with K <= 100 (quick) / all scenarios (thorough). Oracle: no crash / ASan report (child process), "
             "all handles are then closed/freed, the number of live library allocations afterwards does not exceed the fault-free steady state, and either some call reported an error or the result (file bytes / values read) is identical to the fault-free run. "
             "One mc case per (scenario, k); evaluations = fault points. Non-trivial = every fault point that was reached; distinct by (scenario, k1, k2).");
     const char* sd = getenv("VERIF_SCRATCH"); snprintf(g_path, sizeof g_path, "%s/c19_%d.parquet", sd ? sd : "/dev/shm", (int)getpid());
-    static scn_t S[64]; int ns = 0; static const int CD[] = { 0, 1, 2, 5, 6 }; static const char* CN[] = { "uncompressed", "snappy", "gzip", "lz4", "zstd" }; static const char* MN[] = { "buffer", "fread", "mmap" }; static char names[64][48];
+    static scn_t S[96]; int ns = 0; static const int CD[] = { 0, 1, 2, 5, 6 }; static const char* CN[] = { "uncompressed", "snappy", "gzip", "lz4", "zstd" }; static const char* MN[] = { "buffer", "fread", "mmap" }; static char names[96][48];
     S[ns] = (scn_t){ K_SCHEMA, 0, 0, "schema-build" }; ns++;
     for (int c = 0; c < 5; c++) { snprintf(names[ns], 48, "write.%s", CN[c]); S[ns] = (scn_t){ K_WRITE, CD[c], 0, names[ns] }; ns++; }
     snprintf(names[ns], 48, "write.nine-row-groups.uncompressed"); S[ns] = (scn_t){ K_WRITE, 100, 0, names[ns] }; ns++;
+    for (int pad = 0; pad < 16; pad++) { snprintf(names[ns], 48, "write.100-columns.name-padding-%d", pad); S[ns] = (scn_t){ K_WIDE, pad, 0, names[ns] }; ns++; }
     for (int m = 0; m < 3; m++) for (int c = 0; c < 5; c++) { snprintf(names[ns], 48, "read.%s.%s", MN[m], CN[c]); S[ns] = (scn_t){ K_READ, m, CD[c], names[ns] }; ns++; }
     for (int m = 0; m < 3; m++) for (int c = 0; c < 5; c += 4) { snprintf(names[ns], 48, "batch.%s.%s", MN[m], CN[c]); S[ns] = (scn_t){ K_BATCH, m, CD[c], names[ns] }; ns++; }
     for (int m = 0; m < 3; m++) for (int c = 0; c < 2; c++) { snprintf(names[ns], 48, "dict-read.%s.%s", MN[m], c ? "snappy" : "uncompressed"); S[ns] = (scn_t){ K_DICTREAD, m, c ? CODEC_SNAPPY : CODEC_NONE, names[ns] }; ns++; }
@@ -137,8 +152,8 @@ static void enumerate(void) {
         prepare_input(&S[si]);
         obs_t base, again; mcf_reset(); run_scenario(&S[si], &base); long K = mcf_requests(); run_scenario(&S[si], &again); long base_live = mcf_live();
         if (base.err_seen || again.hash != base.hash) mc_harness_error("scenario %s is not deterministic or fails without faults (%s)", S[si].name, base.first_err);
-        mc_count("scenarios", 1); mc_count("allocation-requests.fault-free", (uint64_t)K / 2 * 0 + (uint64_t)(K));
-        long Kone = K / 2;     /* K counted both runs */
+        mc_count("scenarios", 1); mc_count("allocation-requests.fault-free", (uint64_t)K);
+        long Kone = K;         /* K = requests of ONE fault-free run (read before the determinism re-run) */
         for (long k = 1; k <= Kone; k++) {
             if (!mc_next()) continue;
             mc_desc("c19:%s;fail=#%ld/%ld", S[si].name, k, Kone); mc_feature("%s", "allocation-failure"); mc_case_key(mc_mix(0x19, ((uint64_t)si << 32) | (uint64_t)k)); mc_nontrivial();
